@@ -124,7 +124,7 @@ func nativeReplay(rf *ReplayFile, modelPath string) (failed []string, panicked s
 	hd := filepath.Join(verifDir, "harness", rf.Dir)
 	ents, _ := os.ReadDir(hd)
 	for _, en := range ents {
-		if en.IsDir() || !strings.HasSuffix(en.Name(), ".go") {
+		if en.IsDir() || !strings.HasSuffix(en.Name(), ".go") || strings.HasSuffix(en.Name(), "_sym.go") {
 			continue
 		}
 		replace[filepath.Join(repoDir, pi.dir, "zz_verif_"+en.Name())] = filepath.Join(hd, en.Name())
@@ -166,11 +166,19 @@ func TestZZReplay(t *testing.T) {
 	ovb, _ := json.Marshal(map[string]interface{}{"Replace": replace})
 	ovf := filepath.Join(tmp, "overlay.json")
 	os.WriteFile(ovf, ovb, 0o644)
-	cmd := exec.Command("timeout", "300", "go", "test", "-v", "-vet=off", "-count=1", "-run", "^TestZZReplay$", "-overlay", ovf, "./"+pi.dir)
+	goArgs := []string{"300", "go", "test", "-v", "-vet=off", "-count=1", "-run", "^TestZZReplay$", "-overlay", ovf}
+	if strings.HasPrefix(rf.Label, "lock:") {
+		goArgs = append(goArgs, "-race")
+	}
+	goArgs = append(goArgs, "./"+pi.dir)
+	cmd := exec.Command("timeout", goArgs...)
 	cmd.Dir = repoDir
 	cmd.Env = append(os.Environ(), "GOFLAGS=-mod=mod", "GOPROXY=off", "GOSUMDB=off", "GOTOOLCHAIN=local", "VERIF_REPLAY_MODEL="+modelPath)
 	ob, _ := cmd.CombinedOutput()
 	out = string(ob)
+	if strings.HasPrefix(rf.Label, "lock:") && strings.Contains(out, "DATA RACE") {
+		return []string{rf.Label}, "", out, nil
+	}
 	if !strings.Contains(out, "REPLAY-DONE") && !strings.Contains(out, "REPLAY-PANIC") {
 		return nil, "", out, fmt.Errorf("replay did not run to completion")
 	}
